@@ -4,7 +4,7 @@
     process_normal_command, handle_exec), the AOF log.  One [Frame] event of one
     connection is one step (single command thread, server.rs:367-422). *)
 From Ferrous Require Import Base.Bytes Generated Model.Resp Model.Types Model.Glob Model.Strings
-  Model.Lists Model.ZSets Model.Streams Model.Scan Model.PubSub.
+  Model.Lists Model.ZSets Model.Streams Model.Scan Model.PubSub Model.Lua.
 Open Scope Z_scope.
 
 Fixpoint nodup_b (l : list bytes) : list bytes :=
@@ -177,8 +177,11 @@ Definition exec_db (now : Z) (d : db) (name : bytes) (parts : list frame) (oracl
   | None =>
   match exec_streams now d name parts oracle with
   | Some r => Some r
-  | None => exec_scan now d name parts oracle
-  end end end end.
+  | None =>
+  match exec_scan now d name parts oracle with
+  | Some r => Some r
+  | None => exec_scripts now d name parts oracle
+  end end end end end.
 
 Definition h_randomkey (d : db) (parts : list frame) (oracle : option frame) : frame :=
   if negb (len parts =? 1) then r_err else
